@@ -19,6 +19,8 @@ type c15Case struct {
 	B       c15Src  `json:"b"`
 	Mask    int     `json:"mask"`
 	Garbage [][]int `json:"garbage"`
+	// damaged / foreign packets that arrive after frame A's survivors, right before frame B
+	After [][]int `json:"after"`
 	Class   string  `json:"class"`
 }
 
@@ -51,9 +53,12 @@ func runC15(raw json.RawMessage, w *Writer) {
 				delivered++
 			}
 		}
+		for _, g := range c.After {
+			_, _ = used.Unmarshal(bytesOf(g))
+		}
 	})
 	w.Emit(Ev{"ev": "reset", "class": c.Class, "kind": c.Kind})
-	w.Emit(Ev{"ev": "history", "res": r0, "a_packets": len(a), "delivered": delivered, "garbage": len(c.Garbage), "b_packets": len(b)})
+	w.Emit(Ev{"ev": "history", "res": r0, "a_packets": len(a), "delivered": delivered, "garbage": len(c.Garbage) + len(c.After), "b_packets": len(b)})
 	for k, p := range b {
 		var o1, o2 []byte
 		var e1, e2 error
